@@ -1,6 +1,6 @@
 """names available to sidecar contract files."""
 from .types import *
-from .values import Box, SV, Obj, wrap, to_z3, type_of, PArr
+from .values import Box, SV, Obj, wrap, to_z3, type_of, PArr, EngineError
 from .interp import LoopSpec, Builtin
 from .builtins import OneShot
 from .verify import FunctionContract, Lemma
